@@ -261,6 +261,8 @@ func runC19(res *Result, tier string, seed int64, replay string) {
 		`<p class="ka">S1E</p>`, `<span class='kb' style="margin:0">x</span>`, `<a class="ka kb" href="http://x/?a=1&amp;b=2" title="a > b">l</a>`,
 		`<img class="ka" src="i.png"/>`, `<br class="kb">`, `<td class="ka" style='padding:1px;' data-q="it's">c</td>`, `<div class="zz ka">n</div>`,
 		`<p class="kaa">not targeted</p>`, `<p CLASS="ka">upper</p>`, `<input class="kb" disabled>`,
+		`<span class='ka' style='font-family:"Helvetica Neue",Arial'>q</span>`, `<span style="font-family:'Open Sans'" class="kb">q2</span>`,
+		`<b class=ka>unquoted</b>`, `<i class = "kb" >spaced</i>`, `<u class="ka" style="">empty style</u>`, `<em class="ka" style="color:blue">no semicolon</em>`,
 	}
 	carriers := []struct{ name, open, close string }{
 		{"mj-text", "<mj-text>", "</mj-text>"}, {"mj-button", `<mj-button href="u">`, "</mj-button>"},
